@@ -163,10 +163,8 @@ def run(ctx):
     okk = False
     for x in kcfg.nodes:
         if x.kind == 'stmt' and isinstance(x.ast, ast.Raise):
-            g = [t for (t, pol, _g) in kcfg.guards(x)
-                 if isinstance(t, ast.expr) and pol]
-            okk = okk or any(U.phas(t, '__s not in states.TERMINAL_STATES')
-                             for t in g)
+            okk = okk or U.guarded(kcfg, x,
+                                   '__s in states.TERMINAL_STATES', False)
     r2.check(okk,
              ctx.construct(ck), 'non-terminal ignored states are not '
              'rejected', ctx.loc(ck))
